@@ -590,3 +590,128 @@ def evaluate(case, ctx):   # noqa: F811
         ctx["n"] += 1
         return eval_c17(case, ctx)
     return _old_evaluate(case, ctx)
+
+
+# ===========================================================================
+# E-inproc: libFuzzer on the daemon's real input handler (C08, extra phase)
+
+import glob as _glob
+import hashlib as _hashlib
+
+INPROC_SEEDS = [bytes([2, 5, 9, 0, 1, 1, 2, 1, 1, 6, 1, 1, 4, 1, 1, 7, 1, 1, 9, 1, 1, 17, 1, 1, 23, 1, 1]),
+                bytes([0, 0, 1, 1, 30, 1, 1, 26, 1, 1]), bytes([3, 1, 2, 3, 201]) + b"5 N \xff" + bytes([0, 2, 2])]
+
+
+def build_inproc():
+    hsrc = vc.harness_path("inproc_fuzz.c")
+
+    def b(out):
+        cf = ["clang", "-g", "-O1", "-fsanitize=fuzzer-no-link,address,undefined", "-fno-sanitize-recover=undefined"] + vc.DEFS + vc.inc_flags() + ["-w", "-c"]
+        m = lambda n: os.path.join(vc.REPO, "modules", n)
+        s = lambda n: os.path.join(vc.REPO, "src", n)
+        o = lambda n: os.path.join(out, n)
+        cmds = [cf + [hsrc, "-o", o("inproc.o")],
+                cf + ["-Dmodule_constructor=xquery_module_constructor", "-Dmodule_destructor=xquery_module_destructor", m("iauth_xquery.c"), "-o", o("xq.o")],
+                cf + ["-Dmodule_constructor=class_module_constructor", "-Dmodule_destructor=class_module_destructor", m("iauth_class.c"), "-o", o("cl.o")],
+                cf + [m("iauth_misc.c"), "-o", o("misc.o")]]
+        objs = ["inproc.o", "xq.o", "cl.o", "misc.o"]
+        for f in ("config", "log", "set", "common", "bitset", "accumulators", "git-version"):
+            cmds.append(cf + [s(f + ".c"), "-o", o("s_%s.o" % f)])
+            objs.append("s_%s.o" % f)
+        vc._parallel(cmds)
+        vc._run(["clang", "-fsanitize=fuzzer,address,undefined"] + [o(x) for x in objs] + ["-levent", "-lm", "-o", o("inproc_fuzz")])
+    return os.path.join(vc.cached_build("inproc", vc.repo_sources() + [hsrc], vc.DEFS, b), "inproc_fuzz")
+
+
+def run_inproc_input(binary, data, workdir):
+    os.makedirs(workdir, exist_ok=True)
+    f = os.path.join(workdir, "input.bin")
+    with open(f, "wb") as fh:
+        fh.write(data)
+    env = dict(os.environ)
+    env["ASAN_OPTIONS"] = "detect_leaks=0:abort_on_error=0"
+    env["VERIF_INPROC_DIR"] = workdir
+    p = subprocess.run([binary, f], stdout=subprocess.PIPE, stderr=subprocess.PIPE, env=env, timeout=120)
+    txt = p.stderr.decode("latin-1")
+    if p.returncode != 0:
+        for ln in txt.splitlines():
+            if "ERROR: AddressSanitizer" in ln or "runtime error" in ln or "ORACLE-FAIL" in ln:
+                return ln.strip()[:300]
+        return "exit %d" % p.returncode
+    return None
+
+
+def eval_inproc(case, ctx):
+    res = CaseResult()
+    try:
+        binary = build_inproc()
+    except vc.MachineryError:
+        res.inconclusive = "inproc_harness_does_not_build"
+        return res
+    msg = run_inproc_input(binary, bytes.fromhex(case["input_hex"]), os.path.join(ctx["root"], "inproc"))
+    if msg:
+        sig = "segmentation_dependent" if "ORACLE-FAIL" in msg else ("crash_null" if "null" in msg else "memory_error")
+        res.violations.append(V("C08", sig, "in-process input handler on a decoded fuzz input: " + msg))
+    return res
+
+
+def extra_phase(pid, tier, seed):
+    if pid != "C08":
+        return None
+    out = {"evaluations": 0, "nontrivial": 0, "fails": [], "classes": {}, "samples": [], "exhaustive_scope": None}
+    try:
+        binary = build_inproc()
+    except vc.MachineryError as e:
+        # the harness names static objects of iauth_core.c; if a refactoring renamed them this
+        # component is skipped and says so - never a verdict
+        print("NOTE: E-inproc harness does not build against this tree and was skipped (%s)" % str(e).splitlines()[0][:120])
+        out["classes"]["inproc_skipped"] = 1
+        return out
+    root = os.path.join(vc.BUILD, "tmp", "%d-inproc" % os.getpid())
+    shutil.rmtree(root, ignore_errors=True)
+    nproc = vc.NCPU
+    runs = 60000 if tier == "quick" else 1500000
+    procs = []
+    for i in range(nproc):
+        d = os.path.join(root, str(i))
+        corp = os.path.join(d, "corpus")
+        os.makedirs(corp)
+        for j, sdata in enumerate(INPROC_SEEDS if i % 2 == 0 else []):      # half of the jobs start from an empty corpus
+            with open(os.path.join(corp, "seed%d" % j), "wb") as fh:
+                fh.write(sdata)
+        env = dict(os.environ)
+        env["ASAN_OPTIONS"] = "detect_leaks=0:abort_on_error=0"
+        env["VERIF_INPROC_DIR"] = d
+        fs = (seed * 977 + i * 31 + 5) % 2 ** 31 or 1
+        procs.append((d, subprocess.Popen([binary, "-runs=%d" % runs, "-max_len=400", "-seed=%d" % fs, "-artifact_prefix=" + d + "/",
+                                           "-print_final_stats=1", "-timeout=30", corp], stdout=subprocess.DEVNULL, stderr=subprocess.PIPE, env=env)))
+    for d, p in procs:
+        err = p.communicate()[1].decode("latin-1")
+        for ln in err.splitlines():
+            if ln.startswith("stat::number_of_executed_units:"):
+                out["evaluations"] += int(ln.split(":")[-1])
+        for a in sorted(_glob.glob(os.path.join(d, "crash-*"))):
+            with open(a, "rb") as fh:
+                data = fh.read()
+            msg = "libFuzzer artifact"
+            for ln in err.splitlines():
+                if "ERROR: AddressSanitizer" in ln or "runtime error" in ln or "ORACLE-FAIL" in ln:
+                    msg = ln.strip()[:300]
+                    break
+            out["fails"].append({"case": {"mode": "inproc", "input_hex": data.hex()}, "sig": "crash_null" if "null" in msg else "memory_error", "msg": msg})
+        for a in sorted(_glob.glob(os.path.join(d, "corpus", "*")))[:1]:
+            with open(a, "rb") as fh:
+                out["samples"].append({"mode": "inproc", "input_hex": fh.read().hex()})
+    out["nontrivial"] = 0      # coverage-guided executions are not individually classified
+    out["classes"]["inproc_fuzz_executions"] = out["evaluations"]
+    shutil.rmtree(root, ignore_errors=True)
+    return out
+
+
+_evaluate2 = evaluate
+
+
+def evaluate(case, ctx):   # noqa: F811
+    if isinstance(case, dict) and case.get("mode") == "inproc":
+        return eval_inproc(case, ctx)
+    return _evaluate2(case, ctx)
